@@ -35,6 +35,7 @@ KINDS = {
     'parse': ['parse_exception', 'raise_hard', 'raise_exc'],
     'prepare': ['sh_hard', 'raise_hard', 'raise_exc'],
     'execute': ['eh_hard', 'raise_hard', 'raise_exc'],
+    'exe_input': ['exe_input_report', 'raise_hard', 'raise_exc'],
 }
 EXCS = ['RuntimeError', 'ValueError', 'OSError', 'KeyError', 'AssertionError', 'RecursionError']
 CLEANUP_KINDS = ['sh_hard', 'raise_hard', 'raise_exc']
@@ -65,6 +66,8 @@ def step_sites(shape):
             sites.append((ident, 'main', 'main_as' if ph == 'assert' else 'main_sh'))
     for step in ('parse', 'symbols', 'pre_sds', 'post_setup', 'prepare', 'execute'):
         sites.append(('act', step, step))
+    if shape[1] > 0:
+        sites.append(('act', 'exe_input', 'exe_input'))  # needs a [setup] stub that installs the faulty stdin
     return sites
 
 
@@ -171,6 +174,8 @@ def arm_random_faults(case, procs, fr, has_atc, p_none=0.35):
                 sites.append((item['id'], 'main', 'probe'))
     for step in ('parse', 'symbols', 'pre_sds', 'post_setup', 'prepare', 'execute', 'execute'):
         sites.append(('act', step, step))
+    if any(it['k'] == 'fault' for it in case['setup']):
+        sites.append(('act', 'exe_input', 'exe_input'))
     if has_atc:
         sites.append(('atc', 'execute', 'atc_spawn'))
 
@@ -352,7 +357,7 @@ def _is_cleanup_main(plan, f):
 IDENT_CODE = {'PASS': 0, 'SKIPPED': 0, 'FAIL': 32, 'XFAIL': 33, 'XPASS': 33, 'SYNTAX_ERROR': 65,
               'VALIDATION_ERROR': 65, 'HARD_ERROR': 128, 'INTERNAL_ERROR': 129}
 
-STEP_WORDS = {'symbols': 'symbols', 'pre_sds': 'pre-sds', 'post_setup': 'post-setup', 'main': 'main',
+STEP_WORDS = {'symbols': 'symbols', 'pre_sds': 'pre-sds', 'post_setup': 'post-setup', 'main': 'main', 'exe_input': 'exe-input',
               'parse': 'parse', 'prepare': 'prepare', 'execute': 'execute'}
 
 
